@@ -45,6 +45,8 @@ func main() {
 	plan := flag.Bool("plan", false, "with -case: generate the case, do not enter the library")
 	hangProbe := flag.Int("hangprobe", 0, "solo: after this many seconds sample the stacks, report the looping library function as 'H <site>' and exit 3")
 	kvPath := flag.String("kv", "", "key/value file exported by earlier phases")
+	maxRuns := flag.Int("maxruns", 0, "stop each campaign after this many runs of this worker (determinism self-test)")
+	runDigests := flag.String("rundigests", "", "file to write one 'campaign index digest' line per run to (determinism self-test)")
 	flag.Parse()
 
 	if *info != "" {
@@ -88,6 +90,13 @@ func main() {
 		}
 	}
 	emit("R ready")
+	var rdw *bufio.Writer
+	if *runDigests != "" {
+		if rf, err := os.Create(*runDigests); err == nil {
+			rdw = bufio.NewWriter(rf)
+			defer func() { rdw.Flush(); rf.Close() }()
+		}
+	}
 	st := core.NewStats()
 	seen := map[string]int{}
 	distinct := map[uint64]struct{}{}
@@ -128,6 +137,10 @@ func main() {
 				complete = false
 				break
 			}
+			if *maxRuns > 0 && cnt >= *maxRuns {
+				complete = false
+				break
+			}
 			cnt++
 			cs := &core.Case{Prop: p.ID, Campaign: camp.Name, Seed: *seed, Run: idx}
 			emit("B %s %d", camp.Name, idx)
@@ -138,6 +151,13 @@ func main() {
 				// next large allocation gets fresh zero pages instead of a multi-GiB memclr
 				debug.FreeOSMemory()
 				sinceGC = 0
+			}
+			if rdw != nil {
+				v := "ok"
+				if o.Viol != nil {
+					v = o.Viol.Sig()
+				}
+				fmt.Fprintf(rdw, "%s %d %s %s\n", camp.Name, idx, o.Digest, v)
 			}
 			st.Runs++
 			st.Campaigns[camp.Name]++
